@@ -6,7 +6,7 @@ import time
 from . import extract, facts
 
 VERIF = extract.VERIF
-EVIDENCE = os.path.join(VERIF, "evidence")
+EVIDENCE = os.environ.get("SASV_EVIDENCE") or os.path.join(VERIF, "evidence")
 KNOWN = os.path.join(VERIF, "known_findings.json")
 FLOORS = os.path.join(VERIF, "tables", "floors.json")
 
